@@ -37,6 +37,7 @@ type prodCfg struct {
 	BackoffMs    int     `json:"backoffMs"`
 	Sync         bool    `json:"sync"`
 	MaxReqSize   int     `json:"maxReqSize"`
+	PanicIc      int     `json:"panicIc"` // 1-based index of an interceptor that panics after logging (0 = none)
 }
 
 type prodStep struct {
@@ -51,6 +52,7 @@ type prodStep struct {
 	Ms     int    `json:"ms"`
 	Hdrs   int    `json:"hdrs"`
 	BadEnc bool   `json:"badenc"`
+	NilVal bool   `json:"nilval"` // tombstone: nil Value, identity carried by the key
 }
 
 type vBadEncoder struct{}
@@ -116,10 +118,11 @@ func msgID(m *ProducerMessage) int {
 }
 
 type vInterceptor struct {
-	rec   *vRec
-	chain int
-	c     *simCluster
-	hdr   bool
+	rec    *vRec
+	chain  int
+	c      *simCluster
+	hdr    bool
+	panics bool
 }
 
 func (i *vInterceptor) OnSend(m *ProducerMessage) {
@@ -128,6 +131,9 @@ func (i *vInterceptor) OnSend(m *ProducerMessage) {
 	if i.hdr && id > 0 {
 		h := RecordHeader{Key: []byte(fmt.Sprintf("ic%d", i.chain)), Value: []byte("x")}
 		m.Headers = append(m.Headers, h)
+	}
+	if i.panics {
+		panic("verif: interceptor panic")
 	}
 }
 
@@ -318,7 +324,7 @@ func runProducerScenario(t testing.TB, rec *vRec, sc *prodScenario) {
 		config.Producer.Partitioner = func(topic string) Partitioner { return &vPartitioner{NewRandomPartitioner(topic), rec, cfgv.Leaders} }
 	}
 	for i := 0; i < cfgv.Interceptors; i++ {
-		config.Producer.Interceptors = append(config.Producer.Interceptors, &vInterceptor{rec: rec, chain: i + 1, c: c, hdr: v.IsAtLeast(V0_11_0_0)})
+		config.Producer.Interceptors = append(config.Producer.Interceptors, &vInterceptor{rec: rec, chain: i + 1, c: c, hdr: v.IsAtLeast(V0_11_0_0), panics: cfgv.PanicIc == i+1})
 	}
 	if cfgv.MaxReqSize > 0 {
 		old := MaxRequestSize
@@ -441,6 +447,11 @@ func runProducerScenario(t testing.TB, rec *vRec, sc *prodScenario) {
 			if st.BadEnc {
 				m.Value = vBadEncoder{}
 			}
+			if st.NilVal {
+				m.Value = nil
+				sub.value = nil
+				st.Key = fmt.Sprintf("k%d", st.ID)
+			}
 			if st.Key != "" {
 				m.Key = StringEncoder(st.Key)
 				sub.key = []byte(st.Key)
@@ -474,6 +485,10 @@ func runProducerScenario(t testing.TB, rec *vRec, sc *prodScenario) {
 					rec.Ev("unsteered", kv{"what": fmt.Sprintf("wait_req %d", st.N)})
 				}
 				freeRunning = true // the real pipeline left the behaviour: open all gates, keep validating
+			}
+		case "must_outcomes":
+			if !waitOutcomes(st.N, stepWait(st)) {
+				rec.Ev("noreq", kv{"n": st.N, "ms": st.Ms})
 			}
 		case "must_req":
 			if !c.WaitReq(st.N, stepWait(st)) {
